@@ -41,7 +41,9 @@ RULE = (
 
 COLSETS = [["i"], ["i", "s"], ["s", "f", "i"], [], ["b"], ["i", "n"]]
 XCOLSETS = [["i"], ["i", "s"], ["s", "f", "i"], ["b", "n"], ["i", "n"]]
-SOCK_CFGS = [{"kind": "pipe"}, {"kind": "unix"}]
+# "shm": pipe with the shared-memory side channel; the shard lowers the routing threshold to one byte so that the
+# small batches of this workload travel as pointer batches (as batches >= 128 KiB do by default)
+SOCK_CFGS = [{"kind": "pipe"}, {"kind": "unix"}, {"kind": "shm", "shm_size": 1 << 20}]
 HTTP_P_CFGS = [
     {"kind": "http", "tag": "http_nocap"},
     {"kind": "http", "tag": "http_cap1", "app_kwargs": {"max_response_bytes": 1}},
@@ -695,6 +697,12 @@ def run_shard(job: dict[str, Any]) -> dict[str, Any]:
     import warnings
 
     warnings.simplefilter("ignore")
+    import os
+
+    import vgi_rpc.shm as shm_mod
+
+    os.environ.setdefault("VGI_RPC_SHM_MIN_BATCH_BYTES", "1")
+    shm_mod.SHM_MIN_BATCH_BYTES = 1
     chk = Check(PID, job["tier"], job["seed"])
     chk.rng = random.Random(f"C10:{job['seed']}:{job['index']}")
     jobs = _jobs(job["tier"], job["seed"])[job["index"] :: job["n"]]
